@@ -361,7 +361,11 @@ def run_check(prop, tier, seed, replay=None):
                 nowf = [i for i, mline in enumerate(model) if mline.endswith('WF 0')]
                 if nowf:
                     tie_broken.append('hypothesis plan_wf of the refinement theorem fails on %d generated case(s), first: %s' % (len(nowf), cases[nowf[0]]))
-                cov['plan_wf_checked'] = cov.get('plan_wf_checked', 0) + sum(1 for mline in model if mline.endswith('WF 1'))
+                # WF 1: plan_wf holds and is a theorem for this case (side conditions of WfProofs.bind_plan_wf hold);
+                # WF 2: plan_wf holds, validated on the case only (Reorder placed a per-invocation provider before invoke)
+                cov['plan_wf_checked'] = cov.get('plan_wf_checked', 0) + sum(1 for mline in model if mline.endswith('WF 1') or mline.endswith('WF 2'))
+                cov['plan_wf_proved_cases'] = cov.get('plan_wf_proved_cases', 0) + sum(1 for mline in model if mline.endswith('WF 1'))
+                cov['plan_wf_validated_only_cases'] = cov.get('plan_wf_validated_only_cases', 0) + sum(1 for mline in model if mline.endswith('WF 2'))
             if model is not None:
                 cmp = scfg.get('compare', lambda c, o, m: o == m)
                 bad = [i for i in range(len(cases)) if not cmp(cases[i], obs[i], model[i])]
